@@ -49,8 +49,12 @@ func resStr(code string, err error) string {
 	return code
 }
 
+// c11Arena: the shared record table the OCRA inputs of the hot table are cut out of (never reallocated: fixed capacity).
+var c11Arena []byte
+
 func buildC11Table(rng *gen.RNG) []c11Op {
 	var ops []c11Op
+	c11Arena = make([]byte, 0, 1<<16)
 	type sec struct {
 		key   []byte
 		texts []string
@@ -124,6 +128,22 @@ func buildC11Table(rng *gen.RNG) []c11Op {
 		suite := suites[i%len(models)]
 		in := admissibleInput(rng, m, i)
 		oin := toOCRAInput(in) // shared, read-only, by all goroutines
+		// every second operation's fields are records of ONE table shared by all operations (each field a sub-slice
+		// whose capacity runs on into the following records, as when a batch is cut out of one receive buffer)
+		if i%2 == 0 {
+			carve := func(b []byte) []byte {
+				if b == nil {
+					return nil
+				}
+				if len(c11Arena)+len(b) > cap(c11Arena) {
+					return b
+				}
+				off := len(c11Arena)
+				c11Arena = append(c11Arena, b...)
+				return c11Arena[off : off+len(b)]
+			}
+			oin.Counter, oin.Challenge, oin.Password, oin.SessionInfo, oin.Timestamp = carve(oin.Counter), carve(oin.Challenge), carve(oin.Password), carve(oin.SessionInfo), carve(oin.Timestamp)
+		}
 		want := ref.OCRA(s.key, m, in)
 		msgLen := len(ref.OCRAMessage(m, in))
 		ops = append(ops, c11Op{desc: fmt.Sprintf("GenerateOCRA#%d(msg %d bytes)", i, msgLen), code: true, want: want, exec: func() string { return resStr(otp.GenerateOCRA(text, suite, oin)) }})
